@@ -113,7 +113,9 @@ func cmdCheck(args []string) int {
 	if o.jobs == 0 {
 		o.jobs = runtime.NumCPU() / 2
 		if o.tier == "thorough" {
-			o.jobs = runtime.NumCPU()
+			// every obligation runs all solver configurations side by side: keep jobs x runners near the core count, so that
+			// wall-clock solver timeouts keep meaning CPU time
+			o.jobs = runtime.NumCPU() / 4
 		}
 		if o.jobs < 2 {
 			o.jobs = 2
